@@ -91,7 +91,10 @@ def run(tier, replay=None):
     cases = T.corpus(c, tier == "thorough", False)
     tr = T.observe(c, cases, 70, 0, limit=None if tier == "thorough" else 6)
     rt = os.path.join(c.wd, "retain_real.ndjson")
-    vlib.ndjson_write(rt, [e for e in vlib.ndjson_read(tr) if e.get("ev") == "Retain"])
+    def wf(r):     # the premise of C10: a well-formed input
+        from checks.regcommon import refs_of
+        return all(e["id"] == i and all(0 <= x < len(r) for x in refs_of(e)) for i, e in enumerate(r))
+    vlib.ndjson_write(rt, [e for e in vlib.ndjson_read(tr) if e.get("ev") == "Retain" and wf(e["old"])])
     validate(c, "C10", rt)
     c.cov["exhaustive"] = True
     c.cov["rule"] = "every graph on 3 (thorough: design check on 4) nodes with <=2 (thorough replay: <=3) ordered references per node as a concrete registry (11 definition shapes incl. type parameters with and without a type) x every filter subset: model-checked (DoneOK = the statement, PlaceholderNeverRead, termination) and every behaviour replayed on the real retain comparing map and full result; plus random well-formed registries (<=12 entries, all kinds) x random filters, and retain applied again to its own output, validated by TLC running the Retain specification on the concrete entries"
